@@ -33,7 +33,15 @@ impl<'a> Harness<'a> {
         self.unwind = catch_unwind(AssertUnwindSafe(|| {
             task_set.block_on(&rt, async move {
                 f();
-                tokio::task::yield_now().await;
+                // Keep yielding until no task of this module is runnable any more,
+                // so that all work enabled in this instant completes within it.
+                loop {
+                    tokio::task::yield_now().await;
+                    let metrics = tokio::runtime::Handle::current().metrics();
+                    if metrics.worker_local_queue_depth(0) == 0 && metrics.global_queue_depth() == 0 {
+                        break;
+                    }
+                }
             });
         }))
         .err();
